@@ -300,6 +300,11 @@ class UTPM(Ring, RawAlgorithmsMixIn):
             # x may have been broadcast against y[sl]: sum the adjoint over the broadcast axes
             tmp_data = tmp.data
             x_shp = xbar.data.shape
+            if tmp_data.ndim < len(x_shp):
+                # x carries leading axes of length one that the assignment
+                # strips (y[0] = x with x.shape == (1,3)): align the axes
+                tmp_data = tmp_data.reshape(tmp_data.shape[:2]
+                    + (1,)*(len(x_shp) - tmp_data.ndim) + tmp_data.shape[2:])
             while tmp_data.ndim > len(x_shp):
                 tmp_data = tmp_data.sum(axis=2)
             for ax in range(2, len(x_shp)):
